@@ -5,7 +5,7 @@ P = {
     "generated_props": ["Spine.Props.C13Gen"],
     "generated": ["sender"],
     "generated_files": ["Sender.lean"],
-    "lemma_modules": ["Spine.SenderThm", "Spine.Counter", "Spine.SenderLru"],
+    "lemma_modules": ["Spine.SenderThm", "Spine.Counter", "Spine.SenderLru", "Spine.SenderSpec"],
     "drivers": ["drv_snd"],
     "tests": [{"name": "TestSender"}, {"name": "TestSenderWorld"}],
     "trusted_base": [
